@@ -703,7 +703,10 @@ def _newton(ctx):
     other = [n for n in (v.left, v.right) if isinstance(n, ast.Name) and env.get(n.id) != "sign"] if isinstance(v, ast.BinOp) else []
     defs = [s for s in walk_function(f.node) if isinstance(s, (ast.Assign, ast.AugAssign)) and other and
             any(isinstance(t, ast.Name) and t.id == other[0].id for t in (s.targets if isinstance(s, ast.Assign) else [s.target]))]
-    if other and len(defs) == 1 and isinstance(defs[0], ast.Assign) and defs[0].value is c[0]:
+    direct = isinstance(v, ast.BinOp) and any(n is c[0] for n in (v.left, v.right))      # newton(...) * sign written in place
+    if direct:
+        ctx.holds(f, r, "the returned magnitude is the solver's root, not post-processed")
+    elif other and len(defs) == 1 and isinstance(defs[0], ast.Assign) and defs[0].value is c[0]:
         ctx.holds(f, defs[0], "the returned magnitude is the solver's root, not post-processed")
     else:
         ctx.violated(f, defs[-1] if defs else r, "the magnitude returned by stress() is not the unmodified result of the Newton "
